@@ -120,6 +120,20 @@ pub proof fn thm_c02_decomposition(st: PState, allowed: Set<u16>, b: Seq<u8>)
 }
 
 // ---------------------------------------------------------------------------------
+// C06/C14: which packets can change which cache (scoping to protocol; fixed-format and disallowed packets change nothing)
+pub proof fn thm_c06_scoping(st: PState, allowed: Set<u16>, b: Seq<u8>)
+    ensures ({
+        let st1 = pp_spec(st, allowed, b).1;
+        &&& (b.len() < 2 ==> st1 == st)
+        &&& (b.len() >= 2 && !allowed.contains(be16(b, 0)) ==> st1 == st)            // disallowed version
+        &&& (b.len() >= 2 && be16(b, 0) != 9 && be16(b, 0) != 10 ==> st1 == st)      // V5, V7, unknown versions
+        &&& (b.len() >= 2 && be16(b, 0) == 9 ==> st1.ipfix == st.ipfix)              // V9 input never reaches the IPFIX cache
+        &&& (b.len() >= 2 && be16(b, 0) == 10 ==> st1.v9 == st.v9)                   // IPFIX input never reaches the V9 cache
+    }),
+{
+}
+
+// ---------------------------------------------------------------------------------
 // C12: allowed_versions filters by version and nothing else
 /// the run of a parser that allows every version, cut before the first packet whose version is not in S
 pub open spec fn spec_pb_cut(st: PState, s: Set<u16>, full: Set<u16>, b: Seq<u8>) -> (Seq<PView>, PState)
@@ -225,7 +239,7 @@ pub proof fn thm_c11_chain(st: PState, s: Set<u16>, xs: Seq<Seq<u8>>)
         if y.len() == 0 {
             assert(spec_pb(st, s, x + y).0 =~= seq![pview(pkt)]);
             // all remaining packets are non-empty, so tl is empty
-            if tl.len() > 0 { lemma_flatten_len_pos(tl); }
+            if tl.len() > 0 { assert(all_local(st1, s, tl)); assert(is_local_packet(st1, s, tl[0])); lemma_flatten_len_pos(tl); }
             assert(run_each(st1, s, tl).0 =~= Seq::<PView>::empty());
             assert(spec_pb(st, s, x).0 + run_each(st1, s, tl).0 =~= seq![pview(pkt)]);
         } else {
